@@ -425,14 +425,14 @@ func (cl *Cluster) processLocked(nc *NodeConn) {
 				// answered by the node itself, but in order: a real node serves one connection sequentially
 				nc.Data = true
 				nc.Pending = append(nc.Pending, &PCmd{Args: args, Name: name, Raw: raw, Auto: true})
-				cl.autoLocked(nc)
+				cl.autoLocked(nc, true)
 				continue
 			}
 		case "asking":
 			nc.Data = true
 			cl.log.Add(Event{Ev: "recv", N: nc.node.Name, Conn: nc.Id, K: name})
 			nc.Pending = append(nc.Pending, &PCmd{Args: args, Name: name, Raw: raw, Auto: true})
-			cl.autoLocked(nc)
+			cl.autoLocked(nc, true)
 			continue
 		}
 		nc.Data = true
@@ -477,12 +477,17 @@ func (cl *Cluster) processLocked(nc *NodeConn) {
 
 // autoLocked answers the self-answered commands (ASKING, CLUSTER NODES outside scripted-topology
 // mode) that have reached the head of the connection's queue.
-func (cl *Cluster) autoLocked(nc *NodeConn) {
+func (cl *Cluster) autoLocked(nc *NodeConn, late bool) {
 	for len(nc.Pending) > 0 && nc.Pending[0].Auto && !nc.Closed && !nc.PeerEOF {
 		pc := nc.Pending[0]
 		nc.Pending = nc.Pending[1:]
 		if pc.Name == "asking" {
-			cl.log.Add(Event{Ev: "answerauto", N: nc.node.Name, Conn: nc.Id, K: "asking"})
+			ev := Event{Ev: "answerauto", N: nc.node.Name, Conn: nc.Id, K: "asking"}
+			if late {
+				// written while the proxy's iteration was being observed: the proxy reads it next time
+				ev.Kind = "late"
+			}
+			cl.log.Add(ev)
 			nc.c.Write([]byte("+OK\r\n"))
 			continue
 		}
@@ -575,7 +580,7 @@ func (cl *Cluster) Answer(name, kind, cls, to string, raw []byte, part string) b
 				nc.c.Write(nc.rest)
 				nc.rest = nil
 				cl.log.Add(Event{Ev: "answerrest", N: n.Name, Conn: nc.Id})
-				cl.autoLocked(nc)
+				cl.autoLocked(nc, false)
 				return true
 			}
 		}
@@ -656,7 +661,7 @@ func (cl *Cluster) answerLocked(nc *NodeConn, kind, cls, to string, raw []byte) 
 	// log before write: the answer happens-before anything the proxy does with it
 	cl.log.Add(ev)
 	nc.c.Write(b)
-	cl.autoLocked(nc)
+	cl.autoLocked(nc, false)
 }
 
 // CloseConns closes (from the node side) every open data connection of the node.
